@@ -46,6 +46,13 @@ var c12Kinds = []string{"parse-url", "unmarshal-document", "unmarshal-partial", 
 func drawOp(t *rapid.T, ss *gen.SchemaSpec) c12Op {
 	kind := rapid.SampledFrom(c12Kinds).Draw(t, "op")
 	ts := &ss.Types[rapid.IntRange(0, len(ss.Types)-1).Draw(t, "type")]
+	// A hand-written type that stores a relationship under a key that is not its
+	// name cannot be marshaled (Get does not find the field); such types are
+	// only created, set, read and looked up.
+	if kind == "marshal" && ts.RelKeys != nil {
+		kind = "new-set-get"
+	}
+
 	op := c12Op{kind: kind, typ: ts.Name, ts: ts}
 
 	switch kind {
@@ -134,7 +141,9 @@ func runOp(schema *jsonapi.Schema, ss *gen.SchemaSpec, op c12Op) string {
 		parts := make([]string, len(rels))
 
 		for i := range rels {
-			parts[i] = gen.RelString(rels[i])
+			// names only: when the two sides of a pair disagree about
+			// cardinality either side's normal form may be listed (see C16)
+			parts[i] = fmt.Sprintf("%q.%q<->%q.%q", rels[i].FromType, rels[i].FromName, rels[i].ToType, rels[i].ToName)
 		}
 
 		return "rels " + strings.Join(parts, ",")
@@ -144,7 +153,7 @@ func runOp(schema *jsonapi.Schema, ss *gen.SchemaSpec, op c12Op) string {
 }
 
 func c12Schema(t *rapid.T) *gen.SchemaSpec {
-	o := gen.SchemaOpts{MinTypes: 2, MaxTypes: 3, MaxAttrs: 4, MaxRelEdges: 5, AllKindsChance: 0}
+	o := gen.SchemaOpts{MinTypes: 2, MaxTypes: 3, MaxAttrs: 4, MaxRelEdges: 5, AllKindsChance: 0, OddRelKeys: true, OddCardinality: true}
 
 	// "Every schema": one in three is large (a lookup structure may only be
 	// built beyond some size).
